@@ -66,6 +66,7 @@ def _tolist_2d(chunks, padval):
 
 
 def _replay(chk, h, containers):
+  import numpy as np
   from ml_metrics._src.utils import iter_utils
   sizes, b, pad = h['sizes'], h['B'], h['pad']
   drift = 0
@@ -73,6 +74,7 @@ def _replay(chk, h, containers):
     for ncols in (1, 2):
       for explicit_cols, PADVAL in ((True, PADVALS[0]), (False, PADVALS[1]), (True, PADVALS[1])):
         batches = _mk_batches(sizes, ncols, container)
+        pristine = [[list(int(v) for v in np.asarray(col).reshape(len(col), -1)[:, 0]) if len(col) else [] for col in bt] for bt in batches]
         reads = []
 
         def src(batches=batches, reads=reads):
@@ -99,6 +101,11 @@ def _replay(chk, h, containers):
           if not sizes and not explicit_cols:
             sig = 'rebatch:empty-stream-without-num-columns'
           chk.violation(sig, f'{e!r} sizes={sizes} B={b} pad={pad} {container} cols={ncols}', ctx)
+          continue
+        # the caller's batches are inputs: re-batching may not write into them (the same objects may be fed again)
+        after = [[list(int(v) for v in np.asarray(col).reshape(len(col), -1)[:, 0]) if len(col) else [] for col in bt] for bt in batches]
+        if after != pristine:
+          chk.violation(f'rebatch:input-mutated:{container}', f'sizes={sizes} B={b} pad={pad} cols={ncols}: the input batches were {pristine}, after re-batching they are {after}', ctx)
           continue
         want = _expected(h['expect'], ncols, PADVAL)
         if got != want:
@@ -174,6 +181,29 @@ def _replay_pipeline(chk, h):
                       dict(ctx, got=seen, want=want_seen))
 
 
+def _replay_pipeline_two_outputs(chk, h):
+  """A function with one input column and two output columns under batch_size / fn_batch_size: both output columns are
+  re-batched together."""
+  from ml_metrics._src.chainables import transform
+  sizes, b = h['sizes'], h['B']
+  if h['pad'] or not b or not sizes:
+    return
+  batches = [list(col[0]) for col in _mk_batches(sizes, 1, 'list')]
+  rows = [v for bt in batches for v in bt]
+  want = [(rows[i:i + b], [x + 1 for x in rows[i:i + b]]) for i in range(0, len(rows), b)]
+  for fnb in sorted({0, 2, b}):
+    ctx = dict(kind='rebatch-pipeline-two-outputs', history=h, fn_batch_size=fnb)
+    try:
+      p = transform.TreeTransform.new(name='p').apply(fn=lambda xs: ([x for x in xs], [x + 1 for x in xs]), output_keys=('u', 'v'), fn_batch_size=fnb, batch_size=b)
+      out = list(p.make().iterate([list(bt) for bt in batches]))
+    except Exception as e:  # pylint: disable=broad-exception-caught
+      chk.violation(f'pipeline:two-outputs:exception:{type(e).__name__}', f'{e!r} sizes={sizes} B={b} fn_batch_size={fnb}', ctx)
+      continue
+    got = [(list(rec['u']), list(rec['v'])) for rec in out]
+    if got != want:
+      chk.violation('pipeline:two-outputs:batches', f'sizes={sizes} B={b} fn_batch_size={fnb}: got {got} want {want}', ctx)
+
+
 def _replay_pipeline_assign(chk, h):
   """assign(..., batch_size=b): the assigned column stays aligned, row by row, with the columns it is added to."""
   from ml_metrics._src.chainables import transform
@@ -214,6 +244,9 @@ def _replay_pipeline_resizing(chk, h):
 
   def drop(xs):
     return [x for x in xs if (x // 10) % 2 == 0]
+
+  def split(xs):          # one input column, two output columns
+    return [x for x in xs], [x + 1 for x in xs]
 
   for name, fn, out_rows in (('explode', dup, [y for x in rows for y in (x, x + 1)]),
                              ('drop', drop, [x for x in rows if (x // 10) % 2 == 0])):
@@ -267,6 +300,7 @@ def body(chk):
     _replay_pipeline(chk, h)
     _replay_pipeline_resizing(chk, h)
     _replay_pipeline_assign(chk, h)
+    _replay_pipeline_two_outputs(chk, h)
     chk.replayed()
   chk.coverage['drift'] = drift
   if drift:
